@@ -16,6 +16,17 @@ def log(*a):
     print(*a, file=sys.stderr, flush=True)
 
 
+PHASES = []
+_last_tick = [time.time()]
+
+
+def tick(name):
+    """Wall time since the previous tick, recorded per phase (reported in the evidence)."""
+    now = time.time()
+    PHASES.append([name, round(now - _last_tick[0], 1)])
+    _last_tick[0] = now
+
+
 def base_env():
     env = dict(os.environ)
     env["GOFLAGS"] = "-mod=mod"
@@ -73,6 +84,8 @@ class Inconclusive(Exception):
 
 def ensure_engine():
     """Build the engine binary if missing or stale."""
+    if os.environ.get("VERIF_ENGINE_BIN"):
+        return os.environ["VERIF_ENGINE_BIN"]  # development aid: an engine built elsewhere
     binp = os.path.join(VERIF, "engine", "bin", "gosym")
     src_dir = os.path.join(VERIF, "engine")
     newest = 0
@@ -386,7 +399,7 @@ class Report:
     def finish(self):
         ev = {
             "property_id": self.prop, "tier": self.tier, "seed": self.seed, "level": self.level,
-            "coverage": dict(self.cov), "assumptions": self.assumptions,
+            "coverage": dict(self.cov, phase_wall_s=[list(p) for p in PHASES]), "assumptions": self.assumptions,
             "wall_s": round(time.time() - self.t0, 2), "violations": len(self.violations),
         }
         ev["coverage"]["samples"] = self.samples[:12] or ["(none)"]
@@ -474,7 +487,7 @@ class RepoOverlay:
         self.testbin = out
         return out
 
-    def native(self, harness, arg, model, timeout=120):
+    def native(self, harness, arg, model, timeout=120, env_extra=None):
         tb = self.build_test()
         if tb is None:
             res = parse_native("")
@@ -485,6 +498,7 @@ class RepoOverlay:
             json.dump({"model": model}, f)
         env = base_env()
         env.update({"VERIF_REPLAY": mp, "VERIF_HARNESS": harness, "VERIF_ARG": str(arg)})
+        env.update(env_extra or {})
         out, timed_out = run_group([tb, "-test.run", "TestReplay$", "-test.v"], cwd=os.path.join(REPO, self.pkg_rel), env=env, timeout=timeout)
         res = parse_native(out)
         if timed_out:
